@@ -131,6 +131,8 @@ def assemble(n, dr, kT, dias, length, om_self, pots, split, eta, clo_draw, metho
 # ----------------------------------------------------------------------------- construction
 
 def density_of(spec, scale=1.0):
+    if 'rho' in spec:          # explicit number densities (C16 edits densities and diameters independently)
+        return [r * scale for r in spec['rho']]
     return [6.0 * e * scale / (math.pi * d ** 3) for e, d in zip(spec['eta'], spec['dia'])]
 
 
@@ -184,7 +186,7 @@ def make_omega(desc, k=None):
 
 def pot_params(name, p, sigma):
     q = dict(p)
-    if name == 'LennardJones':
+    if name == 'LennardJones' and 'rcut' not in q:
         f = q.pop('rcut_f', None)
         q['rcut'] = None if f is None else float('%.6g' % (f * sigma))
     return q
